@@ -651,3 +651,19 @@ def recv_length_caps(ctx, R):
               "(limit + 2048; limit + 256 under TLS 1.3 framing): %s" % (
                   "for tls13record=%s a declared length of %d is %s" % (bad[0], bad[1], "refused" if bad[2] else "accepted")
                   if bad else "no effective check found"), rs.loc())
+
+
+def bound_args(call, fdef):
+    """{parameter name: normalised argument} for a call of `fdef` (positional and keyword arguments),
+    without self/cls."""
+    names = [a.arg for a in fdef.args.args]
+    if names and names[0] in ("self", "cls"):
+        names = names[1:]
+    out = {}
+    for i, a in enumerate(call.args):
+        if i < len(names):
+            out[names[i]] = norm(a)
+    for k in call.keywords:
+        if k.arg:
+            out[k.arg] = norm(k.value)
+    return out
